@@ -158,4 +158,29 @@ theorem parallel_copy_covers (procs tableLen : BitVec 64) (hp : procs.toNat < 2 
         ofn c (by omega), ofn d (by omega)]
     exact chunk_disjoint _ _ _ _ hcd
 
+/-! ### one bucket-index formula at all four sites -/
+
+/-- the bucket Get searches, the bucket Compute locks and writes, and the bucket both copy routines put a node into are
+    computed by the same formula from the key's hash and the table length; for a table length that is a power of two it is
+    `h1(hash) mod len`, hence in range -/
+theorem bucket_index_same (len hash : BitVec 64) (k : Nat) (hk : k ≤ 62) (hlen : len.toNat = 2 ^ k) :
+    let i := Gen.MapSites.Map_Compute_a6 (Gen.MapSites.Map_Compute_a3 hash) len
+    Gen.MapSites.Map_Get_a4 (Gen.MapSites.Map_Get_a2 hash) len = i ∧
+    Gen.MapSites.Map_copyBucket_a4 hash len = i ∧ Gen.MapSites.Map_copyBucketWithDestLock_a4 hash len = i ∧
+    i.toNat = (Gen.MapSites.h_h1 hash).toNat % 2 ^ k ∧ i.toNat < len.toNat := by
+  intro i
+  have hp : 0 < 2 ^ k := Nat.pow_pos (by decide)
+  have hle : 2 ^ k ≤ 2 ^ 62 := Nat.pow_le_pow_right (by decide) hk
+  have hm : (len - 1#64).toNat = 2 ^ k - 1 := by
+    rw [BitVec.toNat_sub]
+    have h1 : (1#64).toNat = 1 := by decide
+    rw [h1, hlen]
+    have e : 2 ^ 64 - 1 + 2 ^ k = (2 ^ k - 1) + 2 ^ 64 := by omega
+    rw [e, Nat.add_mod_right, Nat.mod_eq_of_lt (by omega)]
+  have hi : i.toNat = (Gen.MapSites.h_h1 hash).toNat % 2 ^ k := by
+    show ((len - 1#64) &&& Gen.MapSites.h_h1 hash).toNat = _
+    rw [BitVec.toNat_and, hm, Nat.and_comm, Nat.and_two_pow_sub_one_eq_mod]
+  refine ⟨rfl, rfl, rfl, hi, ?_⟩
+  rw [hi, hlen]; exact Nat.mod_lt _ hp
+
 end OtterVerif.Proofs.MapGen
